@@ -781,10 +781,14 @@ class Weaver:
                 chosen.append((i_, sec['text'], key_))
         for idx, txt0, key_ in sorted(chosen, reverse=True):
             a, b = cls[idx]
-            txt = hold(txt0.strip(), 'closure:%s' % (key_,))
+            txt = hold(txt0.strip(), 'closure:%s#%d' % (key_, idx + 1))
+            xmark = '/*@@XE%d@@*/' % (len(holders) - 1)     # end of the closure body: the aid's extent covers the whole closure
             rest = msk[b:]
             lead = len(rest) - len(rest.lstrip())
             if rest.lstrip().startswith('{'):
+                e_ = match_close(msk, b + lead)
+                if not any(b < cls[i2][0] <= e_ for i2, _, _ in chosen if i2 != idx):
+                    mt.replace(e_ + 1, e_ + 1, xmark)
                 mt.replace(b, b, ' ' + txt + ' ', woven=False)
             else:
                 depth, j = 0, b
@@ -796,7 +800,7 @@ class Weaver:
                     if c in ')]}' or (c == ',' and depth == 0):
                         break
                     j += 1
-                mt.replace(j, j, ' }')
+                mt.replace(j, j, ' }' + ('' if any(b < cls[i2][0] <= j for i2, _, _ in chosen if i2 != idx) else xmark))
                 mt.replace(b, b + lead, ' ' + txt + ' { ')
             log.append(('closure', 'closure %r: woven contract' % (key_,)))
         # expand placeholders; start/end markers (inline comments, no newlines) give each aid's final line span
@@ -810,10 +814,11 @@ class Weaver:
         for k in range(len(holders)):
             a_ = mt.text.find('/*@@S%d@@*/' % k)
             b_ = mt.text.find('/*@@E%d@@*/' % k)
+            x_ = mt.text.find('/*@@XE%d@@*/' % k)
             if a_ >= 0 and b_ >= 0 and holders[k]:
-                aid_spans.append((holder_ids[k], mt.text.count('\n', 0, a_), mt.text.count('\n', 0, b_)))
+                aid_spans.append((holder_ids[k], mt.text.count('\n', 0, a_), mt.text.count('\n', 0, max(b_, x_))))
         for k in range(len(holders)):
-            for mk in ('/*@@S%d@@*/' % k, '/*@@E%d@@*/' % k):
+            for mk in ('/*@@S%d@@*/' % k, '/*@@E%d@@*/' % k, '/*@@XE%d@@*/' % k):
                 a_ = mt.text.find(mk)
                 if a_ >= 0:
                     mt.replace(a_, a_ + len(mk), '', woven=True)
